@@ -2,7 +2,9 @@ package main
 
 import (
 	"bytes"
+	"errors"
 	"fmt"
+	"os"
 	"strconv"
 	"strings"
 	"sync"
@@ -13,8 +15,8 @@ import (
 	"github.com/scrapli/scrapligo/driver/network"
 	"github.com/scrapli/scrapligo/driver/opoptions"
 	"github.com/scrapli/scrapligo/driver/options"
-	"github.com/scrapli/scrapligo/logging"
 	"github.com/scrapli/scrapligo/platform"
+	"github.com/scrapli/scrapligo/transport"
 	"github.com/scrapli/scrapligo/util"
 
 	"verifgo/sim"
@@ -51,7 +53,7 @@ func c11secret(r *vlib.Rng, tag string) (secret, core string) {
 		secret = core[:4] + r.Pick(deco) + core[4:] + r.Pick(deco)
 		core = core[4:]
 	}
-	return strings.TrimSpace(secret) + "x", core
+	return c11dress(r, strings.TrimSpace(secret)+"x"), core
 }
 
 type c11case struct {
@@ -62,12 +64,32 @@ type c11case struct {
 	rejects int
 }
 
-func runC11case(cs c11case) (leaks []string, info string, nmsgs int, redactedWrites int, errLogged int, retCarries bool) {
+type c11out struct {
+	leaks          []string
+	info           string
+	nmsgs          int
+	redactedWrites int
+	errLogged      int
+	retCarries     bool
+	logMode        string
+	unexpected     int // logger messages although the level is unknown / there is no logger
+	judgedLines    int // logger lines the oracle looked at (incl. the standard logger's)
+	argvLogged     bool
+}
+
+func runC11case(cs c11case) (o c11out) {
+	var leaks []string
+	var info string
+	var nmsgs, redactedWrites, errLogged int
+	var retCarries bool
+	defer func() {
+		o.leaks, o.info, o.nmsgs, o.redactedWrites, o.errLogged, o.retCarries = leaks, info, nmsgs, redactedWrites, errLogged, retCarries
+	}()
 	r := vlib.NewRng(cs.seed)
 	cap := &capture{}
-	li, _ := logging.NewInstance(logging.WithLevel(cs.level), logging.WithLogger(cap.log))
-	common := []util.Option{options.WithLogger(li), options.WithChannelLog(cap),
-		options.WithTimeoutOps(400 * time.Millisecond), options.WithReadDelay(40 * time.Microsecond)}
+	r2 := vlib.NewRng(cs.seed ^ 0x9e3779b97f4a7c15)
+	logOpts, logMode, logSilent, logStd := c11logging(r2, cs.level, cap)
+	common := append(logOpts, options.WithTimeoutOps(400*time.Millisecond), options.WithReadDelay(40*time.Microsecond))
 	var cores []string
 	var secrets []string
 	note := func(s, c string) { secrets = append(secrets, s); cores = append(cores, c) }
@@ -75,10 +97,21 @@ func runC11case(cs c11case) (leaks []string, info string, nmsgs int, redactedWri
 	seg := segs[r.Intn(len(segs))]
 	var extra []c11needles // secrets that are not strings (their renderings), see c11_onx.go
 	var retErr []string    // texts of errors returned to the caller
+	info2 := ""
 	// fault injection keyed on the secret's core: the write that carries a secret fails, or the
 	// device drops the session right after receiving it, or the write after it (the return) fails
 	sawSecret := false
+	var stallDev func() // set by the scenario: called with the device's lock held
+	nthKind, nthK := c11nthFault(cs.fault)
+	nWrites := 0
 	fault := func(b []byte) (bool, bool) {
+		nWrites++
+		if nthKind != "" {
+			if nWrites == nthK {
+				return nthKind == "wfail", nthKind == "eof"
+			}
+			return false, false
+		}
 		hit := false
 		for _, c := range cores {
 			if bytes.Contains(b, []byte(c)) {
@@ -86,6 +119,10 @@ func runC11case(cs c11case) (leaks []string, info string, nmsgs int, redactedWri
 			}
 		}
 		switch cs.fault {
+		case "silent-secret": // the device receives the secret and says nothing any more (time-out)
+			if hit && stallDev != nil {
+				stallDev()
+			}
 		case "wfail-secret":
 			return hit, false
 		case "eof-secret":
@@ -99,7 +136,7 @@ func runC11case(cs c11case) (leaks []string, info string, nmsgs int, redactedWri
 		}
 		return false, false
 	}
-	env := &c11env{r: r, common: common, seg: seg, fault: fault, note: note, extra: &extra, retErr: &retErr}
+	env := &c11env{r: r, common: common, seg: seg, fault: fault, note: note, extra: &extra, retErr: &retErr, stall: &stallDev}
 	switch cs.kind {
 	case "onx-generic":
 		info = runC11onx(env, false)
@@ -107,6 +144,14 @@ func runC11case(cs c11case) (leaks []string, info string, nmsgs int, redactedWri
 		info = runC11onx(env, true)
 	case "hidden-onopen":
 		info = runC11hiddenOnOpen(env)
+	case "system-ssh":
+		info = runC11system(env, false)
+	case "system-netconf":
+		info = runC11system(env, true)
+	case "netconf-inchannel":
+		info = runC11netconfInChannel(env)
+	case "standard-ssh":
+		info = runC11standard(env)
 	case "escalate-ask", "escalate-noask", "escalate-reject":
 		sec, core := c11secret(r, "EN")
 		note(sec, core)
@@ -117,14 +162,17 @@ func runC11case(cs c11case) (leaks []string, info string, nmsgs int, redactedWri
 		dev := sim.NewIOS("router", devSecret, cs.kind != "escalate-noask")
 		dev.Seg = seg
 		dev.WriteFault = fault
+		stallDev = func() { dev.Pipe.StallAt = dev.Pipe.Emitted }
 		dev.Start()
 		p, err := platform.NewPlatform("cisco_iosxe", "h", append(common, options.WithCustomTransport(dev), options.WithAuthBypass(), options.WithAuthSecondary(sec))...)
 		if err != nil {
-			return nil, "platform: " + err.Error(), 0, 0, 0, false
+			info = "platform: " + err.Error()
+			return
 		}
 		d, err := p.GetNetworkDriver()
 		if err != nil {
-			return nil, "driver: " + err.Error(), 0, 0, 0, false
+			info = "driver: " + err.Error()
+			return
 		}
 		err = d.Open()
 		info = "open:" + errClass(err)
@@ -134,6 +182,12 @@ func runC11case(cs c11case) (leaks []string, info string, nmsgs int, redactedWri
 			e3 := d.AcquirePriv("exec")
 			e4 := d.AcquirePriv("configuration")
 			info += fmt.Sprintf(" cmd:%s cfg:%s acq:%s acq:%s", errClass(e1), errClass(e2), errClass(e3), errClass(e4))
+			if r2.Chance(1, 3) { // a level whose prompt other levels exclude by `not-contains`, then down and up again
+				e5 := d.AcquirePriv("tclsh")
+				e6 := d.AcquirePriv("exec")
+				e7 := d.AcquirePriv("privilege-exec")
+				info += fmt.Sprintf(" tcl:%s acq:%s acq:%s", errClass(e5), errClass(e6), errClass(e7))
+			}
 		}
 		closeQuietly(func() error { return d.Close() })
 	case "telnet", "ssh", "ssh-passphrase":
@@ -155,18 +209,48 @@ func runC11case(cs c11case) (leaks []string, info string, nmsgs int, redactedWri
 		}
 		dev := sim.NewMiniLogin(fl, "admin", pass, pp, cs.rejects%9)
 		dev.Banner = "\nUser Access Verification\n\n"
+		style := r2.Pick([]string{"", "", "", "", "", "reprompt", "silent", "errline"})
+		switch style {
+		case "reprompt":
+			dev.Rejects = 3
+			sim.C11LoginStyle(dev, style, "", false)
+		case "silent":
+			sim.C11LoginStyle(dev, style, "", true)
+		case "errline":
+			if fl == "ssh" {
+				sim.C11LoginStyle(dev, style, r2.Pick(sim.C11SSHErrLines), true)
+			} else {
+				style = ""
+			}
+		}
+		wrongPP := pp != "" && r2.Chance(1, 4) // the client is configured with a wrong key passphrase
+		if wrongPP {
+			dev.Passphrase = "right-" + pp // what the client types (pp, through GetSSHArgs) is refused
+		}
 		dev.Seg = seg
 		dev.WriteFault = fault
+		stallDev = func() { dev.Pipe.StallAt = dev.Pipe.Emitted }
 		dev.Start()
-		d, err := generic.NewDriver("h", append(common, options.WithCustomTransport(dev), options.WithAuthUsername("admin"), options.WithAuthPassword(typed))...)
+		var tr transport.Implementation = dev
+		if wrongPP {
+			tr = c11wrongPP{dev, pp}
+		}
+		d, err := generic.NewDriver("h", append(common, options.WithCustomTransport(tr), options.WithAuthUsername("admin"), options.WithAuthPassword(typed))...)
 		if err != nil {
-			return nil, "driver: " + err.Error(), 0, 0, 0, false
+			info = "driver: " + err.Error()
+			return
 		}
 		if typed != pass {
 			note(typed, core)
 		}
 		err = d.Open()
 		info = "open:" + errClass(err)
+		if style != "" {
+			info += " style=" + style
+		}
+		if wrongPP {
+			info += " wrong-passphrase"
+		}
 		if err == nil {
 			_, e1 := d.SendCommand("show version")
 			info += " cmd:" + errClass(e1)
@@ -184,6 +268,7 @@ func runC11case(cs c11case) (leaks []string, info string, nmsgs int, redactedWri
 		dev := sim.NewIOS("router", devSecret, true)
 		dev.Seg = seg
 		dev.WriteFault = fault
+		stallDev = func() { dev.Pipe.StallAt = dev.Pipe.Emitted }
 		dev.Start()
 		events := []*channel.SendInteractiveEvent{
 			{ChannelInput: "enable", ChannelResponse: "(?im)^password:\\s?$", HideInput: false},
@@ -193,17 +278,36 @@ func runC11case(cs c11case) (leaks []string, info string, nmsgs int, redactedWri
 			// hidden event that just waits for the normal channel prompt (no explicit response)
 			events[1].ChannelResponse = ""
 		}
+		var iopts []util.Option
+		if r2.Chance(1, 4) {
+			iopts = append(iopts, opoptions.WithExactMatchInput())
+			info2 = " exact"
+		}
+		if r2.Chance(1, 8) { // an operation option that refuses: SendInteractive fails before it writes anything
+			if r2.Bool() {
+				iopts = append(iopts, func(o interface{}) error { return errors.New("c11: option refused") })
+			} else { // refused by the channel's operation only (the driver's own operation ignores it)
+				iopts = append(iopts, func(o interface{}) error {
+					if _, ok := o.(*channel.OperationOptions); ok {
+						return errors.New("c11: channel option refused")
+					}
+					return util.ErrIgnoredOption
+				})
+			}
+			info2 += " bad-option"
+		}
 		if r.Bool() {
 			d, err := generic.NewDriver("h", append(common, options.WithCustomTransport(dev), options.WithAuthBypass(),
 				options.WithFailedWhenContains([]string{"% Access denied", "% Invalid input"}))...)
 			if err != nil {
-				return nil, "driver: " + err.Error(), 0, 0, 0, false
+				info = "driver: " + err.Error()
+				return
 			}
 			err = d.Open()
 			info = "generic open:" + errClass(err)
 			if err == nil {
-				rr, e1 := d.SendInteractive(events)
-				info += " inter:" + errClass(e1)
+				rr, e1 := d.SendInteractive(events, iopts...)
+				info += " inter:" + errClass(e1) + info2
 				if rr != nil && rr.Failed != nil {
 					info += " failed"
 				}
@@ -213,17 +317,19 @@ func runC11case(cs c11case) (leaks []string, info string, nmsgs int, redactedWri
 			p, err := platform.NewPlatform("cisco_iosxe", "h", append(common, options.WithCustomTransport(dev), options.WithAuthBypass(),
 				options.WithDefaultDesiredPriv("exec"), options.WithFailedWhenContains([]string{"% Access denied", "% Invalid input"}))...)
 			if err != nil {
-				return nil, "platform: " + err.Error(), 0, 0, 0, false
+				info = "platform: " + err.Error()
+				return
 			}
 			d, err := p.GetNetworkDriver()
 			if err != nil {
-				return nil, "driver: " + err.Error(), 0, 0, 0, false
+				info = "driver: " + err.Error()
+				return
 			}
 			err = d.Open()
 			info = "network open:" + errClass(err)
 			if err == nil {
-				rr, e1 := d.SendInteractive(events, opoptions.WithPrivilegeLevel("exec"))
-				info += " inter:" + errClass(e1)
+				rr, e1 := d.SendInteractive(events, append(iopts, opoptions.WithPrivilegeLevel("exec"))...)
+				info += " inter:" + errClass(e1) + info2
 				if rr != nil && rr.Failed != nil {
 					info += " failed"
 				}
@@ -249,16 +355,19 @@ func runC11case(cs c11case) (leaks []string, info string, nmsgs int, redactedWri
 		dev.Hidden = true
 		dev.Seg = seg
 		dev.WriteFault = fault
+		stallDev = func() { dev.Pipe.StallAt = dev.Pipe.Emitted }
 		dev.Mu.Lock()
 		dev.EmitRich("Key: ")
 		dev.Mu.Unlock()
 		p, err := platform.NewPlatform([]byte(yaml), "h", append(common, options.WithCustomTransport(dev), options.WithAuthBypass())...)
 		if err != nil {
-			return nil, "platform: " + err.Error(), 0, 0, 0, false
+			info = "platform: " + err.Error()
+			return
 		}
 		d, err := p.GetGenericDriver()
 		if err != nil {
-			return nil, "driver: " + err.Error(), 0, 0, 0, false
+			info = "driver: " + err.Error()
+			return
 		}
 		err = d.Open()
 		info = "open:" + errClass(err)
@@ -278,6 +387,9 @@ func runC11case(cs c11case) (leaks []string, info string, nmsgs int, redactedWri
 		}
 		if strings.Contains(m, "error executing") || strings.Contains(m, "error running network on close") {
 			errLogged++
+		}
+		if strings.Contains(m, "opening system transport with bin") {
+			o.argvLogged = true
 		}
 		for i, core := range cores {
 			if strings.Contains(m, core) || strings.Contains(m, secrets[i]) {
@@ -312,7 +424,29 @@ func runC11case(cs c11case) (leaks []string, info string, nmsgs int, redactedWri
 			leaks = append(leaks, "channel log contains the secret")
 		}
 	}
-	return leaks, info, nmsgs, redactedWrites, errLogged, retCarries
+	o.logMode = logMode
+	o.judgedLines = nmsgs
+	if logSilent {
+		o.unexpected = nmsgs
+	}
+	if logStd {
+		// what the default logger printed (process wide): this session's secrets must not be there
+		c11stdlog.mu.Lock()
+		std := c11stdlog.buf.String()
+		c11stdlog.mu.Unlock()
+		o.judgedLines += strings.Count(std, "\n")
+		for i, core := range cores {
+			if strings.Contains(std, core) || strings.Contains(std, secrets[i]) {
+				leaks = append(leaks, "standard logger (log.Print): secret "+strconv.Quote(core)+" printed")
+			}
+		}
+		for i := range extra {
+			if extra[i].hit(std) {
+				leaks = append(leaks, "standard logger (log.Print): secret printed")
+			}
+		}
+	}
+	return
 }
 
 func closeQuietly(f func() error) {
@@ -330,10 +464,17 @@ func closeQuietly(f func() error) {
 
 func runC11(c *ctx) {
 	res := c.res
-	res.Rule = "sessions with a capturing logger (debug/info/critical) and a channel-log writer: platform cisco_iosxe on-open + escalation (device asks / does not ask / rejects), in-channel telnet and ssh logins (0-3 rejections, wrong password, key passphrase), platform on-open redacted write; platform on-open / on-close sequences (generic and network layer, block and flow spelling) whose redacted input is not a YAML string (int, hex, float, bool, null, list, map, timestamp, missing) or whose operation is malformed, so that the driver logs the returned error; on-open / on-close functions that run a hidden SendInteractive dialogue and return its error; write faults, session drops and timeouts at the secret; secrets random around a unique core, decorated with format verbs, quotes and regex metacharacters. non-trivial = session in which at least one secret was actually transmitted redacted or the driver logged an error value; distinct by seed"
-	kinds := []string{"escalate-ask", "escalate-ask", "escalate-noask", "escalate-reject", "telnet", "telnet", "ssh", "ssh-passphrase", "platform-redacted", "interactive-hidden-failed", "interactive-hidden-ok",
-		"onx-generic", "onx-generic", "onx-network", "onx-network", "hidden-onopen"}
+	res.Rule = "sessions judged on every logger message (debug/info/critical) and the channel log. Kinds: platform cisco_iosxe on-open + escalation (device asks / does not ask / rejects; down to exec, up to configuration, tclsh and back); in-channel telnet and ssh logins over simulators (0-3 rejections, wrong password, key passphrase right/wrong; refusal styles: message, silent re-prompt, silence, 13 ssh error lines); NETCONF with in-channel password/passphrase; the REAL system transport (exec+pty) with this binary as stand-in ssh (password prompt without echo, refusals, key file ok/unusable/missing/with passphrase, known-hosts/config/strict options, extra args and argv override, missing binary; CLI and NETCONF) whose logged argv line is judged; the REAL standard transport (crypto/ssh) against an in-process SSH server (password / keyboard-interactive accepted, refused, unusable or passphrase-protected key); platform on-open redacted write; platform on-open / on-close sequences (generic and network layer, block and flow spelling) whose redacted input is not a YAML string or whose operation is malformed; on-open / on-close functions that return the error of a hidden SendInteractive dialogue; hidden interactive events (fuzzy / exact input matching, refusing operation options). Faults: write failure / session drop / silence at the secret, failure of the write after it, failure or drop at the k-th write. Logging: default, custom and quoting formatter, two loggers, upper-case level, unknown level word, no logger, options.WithDefaultLogger (log.Print captured process wide), with and without channel log. Secrets: unique core + format verbs, quotes, regex metacharacters, braces, tabs, words the device prints, up to ~3.7 kB. Plus: logging.Instance level filter and WithLevel vs the Lean model (exhaustive over level words x 0-3 loggers x six methods). non-trivial = a secret was transmitted redacted, or the driver logged an error value, or the system transport's argv line was judged, or the level is not debug; distinct by seed"
+	kinds := []string{"escalate-ask", "escalate-ask", "escalate-noask", "escalate-reject", "telnet", "telnet", "ssh", "ssh", "ssh-passphrase", "ssh-passphrase", "platform-redacted", "interactive-hidden-failed", "interactive-hidden-ok",
+		"onx-generic", "onx-generic", "onx-network", "onx-network", "hidden-onopen",
+		"system-ssh", "system-netconf", "netconf-inchannel", "netconf-inchannel", "standard-ssh"}
 	var cases []c11case
+	if c.replay == "" || strings.HasPrefix(c.replay, "c11log") {
+		c11logLevels(c)
+	}
+	if strings.HasPrefix(c.replay, "c11log") {
+		return
+	}
 	if strings.HasPrefix(c.replay, "c11case") {
 		f := strings.Fields(c.replay)
 		seed, _ := strconv.ParseUint(f[1], 10, 64)
@@ -344,21 +485,19 @@ func runC11(c *ctx) {
 		}
 		cases = []c11case{cs}
 	} else {
-		for i := 0; i < c.n(680, 14000); i++ {
+		for i := 0; i < c.n(900, 16000); i++ {
 			cs := c11case{seed: c.rng.U64(), kind: kinds[c.rng.Intn(len(kinds))], level: []string{"debug", "debug", "info", "critical"}[c.rng.Intn(4)]}
 			cs.rejects = []int{0, 0, 1, 2, 3, 9}[c.rng.Intn(6)]
-			cs.fault = []string{"", "", "", "wfail-secret", "eof-secret", "wfail-return"}[c.rng.Intn(6)]
+			cs.fault = []string{"", "", "", "", "wfail-secret", "eof-secret", "wfail-return", "wfail-n", "eof-n", "silent-secret"}[c.rng.Intn(10)]
+			if strings.HasSuffix(cs.fault, "-n") { // the k-th write of the session, whatever it carries
+				cs.fault += strconv.Itoa(1 + c.rng.Intn(1+c.rng.Intn(14)))
+			}
 			cases = append(cases, cs)
 		}
 	}
-	type out struct {
-		leaks  []string
-		info   string
-		n, rw  int
-		errLog int
-		retSec bool
-	}
-	outs := make([]out, len(cases))
+	outs := make([]c11out, len(cases))
+	os.Setenv("VERIF_C11_STANDIN", "1") // children spawned as the ssh stand-in (c11_sys.go) recognise themselves by it
+	defer os.Unsetenv("VERIF_C11_STANDIN")
 	var wg sync.WaitGroup
 	sem := make(chan struct{}, vlib.Conc(16))
 	for i := range cases {
@@ -367,36 +506,47 @@ func runC11(c *ctx) {
 		go func(i int) {
 			defer wg.Done()
 			defer func() { <-sem }()
-			l, info, n, rw, el, rs := runC11case(cases[i])
-			outs[i] = out{l, info, n, rw, el, rs}
+			outs[i] = runC11case(cases[i])
 		}(i)
 	}
 	wg.Wait()
+	if c11tmpDir != "" {
+		os.RemoveAll(c11tmpDir)
+	}
 	for i, cs := range cases {
 		o := outs[i]
 		fl := cs.fault
 		if fl == "" {
 			fl = "-"
 		}
+		flClass := strings.TrimRight(fl, "0123456789")
 		line := fmt.Sprintf("c11case %d %s %s %d %s", cs.seed, cs.kind, cs.level, cs.rejects, fl)
-		res.Count("fault:" + fl)
+		res.Count("fault:" + flClass)
 		res.Count("kind:" + cs.kind)
 		res.Count("level:" + cs.level)
-		res.Count("outcome:" + cs.kind + ":" + fl + ":" + o.info)
-		if o.errLog > 0 {
+		res.Count("logging:" + o.logMode)
+		res.Count("outcome:" + cs.kind + ":" + flClass + ":" + o.info)
+		if o.errLogged > 0 {
 			res.Count("driver-logged-an-error:" + cs.kind)
 		}
-		if o.retSec {
+		if o.argvLogged {
+			res.Count("system-transport-argv-line-judged:" + cs.kind)
+		}
+		if o.unexpected > 0 {
+			// the level filter itself is tied to the model in c11logLevels; here it is only counted
+			res.Count("messages-despite-unknown-level-or-no-logger")
+		}
+		if o.retCarries {
 			// not a log: the property speaks about the loggers and the channel log only
 			res.Count("returned-error-carries-secret:" + cs.kind)
 		}
-		res.Case(line, o.rw > 0 || o.errLog > 0 || cs.level != "debug")
+		res.Case(line, o.redactedWrites > 0 || o.errLogged > 0 || o.argvLogged || cs.level != "debug")
 		res.InDomain++
 		if i%37 == 0 {
-			res.Sample(map[string]any{"case": line, "outcome": o.info, "log_messages": o.n, "redacted_writes_logged": o.rw})
+			res.Sample(map[string]any{"case": line, "outcome": o.info, "logging": o.logMode, "log_messages": o.nmsgs, "redacted_writes_logged": o.redactedWrites})
 		}
 		if len(o.leaks) > 0 {
-			res.Fail("oracle", line, fmt.Sprintf("secret visible in %d place(s), first: %s", len(o.leaks), o.leaks[0]), "secret-in-log:"+cs.kind+":"+fl)
+			res.Fail("oracle", line, fmt.Sprintf("secret visible in %d place(s), first: %s", len(o.leaks), o.leaks[0]), "secret-in-log:"+cs.kind+":"+flClass)
 		}
 	}
 	res.TracesVsImpl = len(cases)
